@@ -110,9 +110,12 @@ func runC39(b c39Burst) pbt.Result {
 		return pbt.Fail("configured request memory limit %d MiB, server reports %d (documented clamp gives %d)", b.LimitMiB, limit, wantLimit)
 	}
 	hardLimit.Store(wantLimit)
+	// the client's liveness timer (default 10 s without a packet) must not fire while a request rightly waits for
+	// memory on a busy machine: a closed connection would look like "excess load failed"
+	patient := rpc.ClientWithPacketTimeout(10 * time.Minute)
 	clients := make([]rpc.Client, b.Clients)
 	for i := range clients {
-		clients[i] = newClient(false)
+		clients[i] = newClient(false, patient)
 	}
 	defer func() {
 		for _, c := range clients {
@@ -171,7 +174,7 @@ func runC39(b c39Burst) pbt.Result {
 		for ci := 0; ci < b.Kill && ci < len(clients); ci++ {
 			_ = clients[ci].Close()
 		}
-		fresh := newClient(false)
+		fresh := newClient(false, patient)
 		clients = append(clients, fresh)
 		for k := 0; k < b.SecondWave; k++ {
 			kib := b.BodyKiB[idx%len(b.BodyKiB)]
